@@ -685,8 +685,7 @@ Proof.
   - (* RESULT *)
     destruct (find_req KCall rq (pend s)) as [r|] eqn:Ef; [|assumption].
     destruct progress.
-    + destruct (r_opts r) as [c|]; [|assumption]. destruct (co_progress c); [|assumption].
-      destruct (co_details c); [destruct (p_args p); [destruct (p_kw p)|]|]; assumption.
+    + destruct (r_opts r) as [c|]; [|assumption]. destruct (co_progress c); assumption.
     + pose proof (Inv_pop _ _ _ _ _ H Ef) as HP.
       destruct (is_done (set_pend s (remove_req KCall rq (pend s))) (r_fut r)) eqn:Ed.
       * simpl. eapply Inv_popped_done; eassumption.
@@ -1044,25 +1043,23 @@ Proof.
     match goal with |- context [complete fl ?S ?F ?R] => destruct (Hcomp fl S F R) as [Hp [Hd|Hd]]; rewrite Hp, Hd; simpl; eauto end.
 Qed.
 
-(* progressive results: the state does not change at all; only the on_progress handler of that very call can fire *)
+(* progressive results: the state does not change at all; only the on_progress handler of that very call can fire,
+   with the payload of this message, and nothing is raised *)
 Theorem progress_local : forall fl cfg s v rq p,
   transport s = true -> sid s = Some v ->
   exists outs, step fl cfg s (RResult rq true p) = (s, outs) /\
     (outs = [Raised XProtocolError] /\ find_req KCall rq (pend s) = None
      \/ exists r, find_req KCall rq (pend s) = Some r /\
-          (outs = [] \/ outs = [Raised XAttributeError] \/ outs = [Raised XTypeError]
-           \/ exists d a kw, outs = [Progress (r_fut r) d a kw] /\
-                exists c, r_opts r = Some c /\ co_progress c = true /\ d = co_details c)).
+          (outs = [] /\ (r_opts r = None \/ exists c, r_opts r = Some c /\ co_progress c = false)
+           \/ exists c, r_opts r = Some c /\ co_progress c = true /\
+                outs = [Progress (r_fut r) (co_details c) (args_or_empty (p_args p)) (kw_or_empty (p_kw p))])).
 Proof.
   intros fl cfg s v rq p Ht Hs. unfold step. rewrite Ht, Hs. simpl.
   destruct (find_req KCall rq (pend s)) as [r|] eqn:Ef; [|eexists; split; [reflexivity | left; auto]].
   destruct (r_opts r) as [c|] eqn:Eo; [|eexists; split; [reflexivity | right; exists r; auto]].
-  destruct (co_progress c) eqn:Ep; [|eexists; split; [reflexivity | right; exists r; auto]].
-  destruct (co_details c) eqn:Edt.
-  - destruct (p_args p) as [a|]; [destruct (p_kw p) as [kw|]|]; eexists; (split; [reflexivity | right; exists r; split; [reflexivity|]]); auto.
-    right; right; right. exists true, a, kw. split; [reflexivity|]. exists c. auto.
-  - eexists; split; [reflexivity | right; exists r; split; [reflexivity|]].
-    right; right; right. exists false, (args_or_empty (p_args p)), (kw_or_empty (p_kw p)). split; [reflexivity|]. exists c. auto.
+  destruct (co_progress c) eqn:Ep; eexists; (split; [reflexivity | right; exists r; split; [reflexivity|]]).
+  - right. exists c. auto.
+  - left. split; [reflexivity|]. right. exists c. auto.
 Qed.
 
 (* ---------------------------------------------------------------------------------------------------------- *)
@@ -1612,8 +1609,7 @@ Proof.
   - apply NR_pop_reply. intros. now apply NR_complete_from.
   - apply NR_pop_reply. intros. now apply NR_complete_from.
   - destruct (find_req KCall rq (pend s)) as [r|]; [|split; reflexivity]. destruct progress.
-    + destruct (r_opts r) as [c|]; [|split; reflexivity]. destruct (co_progress c); [|split; reflexivity].
-      destruct (co_details c); [destruct (p_args p); [destruct (p_kw p)|]|]; split; reflexivity.
+    + destruct (r_opts r) as [c|]; [|split; reflexivity]. destruct (co_progress c); split; reflexivity.
     + destruct (is_done _ _); [split; reflexivity|]. now apply NR_complete_from.
   - apply NR_pop_reply. intros r s1 Hn. destruct (assoc regid (regs s1)); [split; [reflexivity | exact Hn]|].
     now apply NR_complete_from.
@@ -1861,8 +1857,7 @@ Proof.
   - apply LQ_pop_reply. intros. now apply LQ_complete_from.
   - apply LQ_pop_reply. intros. now apply LQ_complete_from.
   - destruct (find_req KCall rq (pend s)) as [r|]; [|split; reflexivity]. destruct progress.
-    + destruct (r_opts r) as [c|]; [|split; reflexivity]. destruct (co_progress c); [|split; reflexivity].
-      destruct (co_details c); [destruct (p_args p); [destruct (p_kw p)|]|]; split; reflexivity.
+    + destruct (r_opts r) as [c|]; [|split; reflexivity]. destruct (co_progress c); split; reflexivity.
     + destruct (is_done _ _); [split; reflexivity|]. now apply LQ_complete_from.
   - apply LQ_pop_reply. intros r s1 Hn. destruct (assoc regid (regs s1)); [split; [reflexivity | exact Hn]|].
     now apply LQ_complete_from.
@@ -2435,4 +2430,258 @@ Proof.
     destruct (send_ok cfg s); reflexivity.
   - destruct (transport s && isNone (sid s) && match u_welcome cfg with WlNone => true | _ => false end); reflexivity.
   - destruct (transport s && negb (isNone (sid s)) && (goodbye_sent s || send_ok cfg s)); reflexivity.
+Qed.
+
+(* ---------------------------------------------------------------------------------------------------------- *)
+(* what can leave an entry point                                                                              *)
+(* ---------------------------------------------------------------------------------------------------------- *)
+Definition okb (e : out) : bool := match e with Raised XProtocolError => true | Raised _ => false | _ => true end.
+Definition pe_only (l : list out) : Prop := forallb okb l = true.
+
+Lemma pe_app : forall a b, pe_only a -> pe_only b -> pe_only (a ++ b).
+Proof. unfold pe_only. intros. rewrite forallb_app, H, H0. reflexivity. Qed.
+
+Lemma pe_send : forall cfg s m, pe_only (fst (send cfg s m)).
+Proof. intros. unfold send. destruct (topen s); [|destruct (t_lenient cfg && transport s)]; reflexivity. Qed.
+
+Lemma pe_complete : forall fl s f r, pe_only (snd (complete fl s f r)).
+Proof. intros. unfold complete. destruct (is_done s f); [reflexivity|]. destruct fl; reflexivity. Qed.
+
+Lemma pe_errback_list : forall fl e l s, pe_only (snd (errback_list fl s e l)).
+Proof.
+  induction l as [|r t IH]; simpl; intro s; [reflexivity|].
+  pose proof (pe_complete fl s (r_fut r) (RErr e)) as H1. destruct (complete fl s (r_fut r) (RErr e)) as [s1 o1].
+  specialize (IH s1). destruct (errback_list fl s1 e t) as [s2 o2]. simpl in *. now apply pe_app.
+Qed.
+
+Lemma pe_errback_all : forall fl s e, pe_only (snd (errback_all fl s e)).
+Proof. intros. unfold errback_all. apply pe_errback_list. Qed.
+
+Lemma pe_run_leaf : forall fl cfg s l, pe_only (snd (run_leaf fl cfg s l)).
+Proof.
+  intros fl cfg s l. destruct l; simpl; try reflexivity.
+  - destruct (sdetails s); [|reflexivity]. destruct (u_join_raises cfg); [destruct fl|]; reflexivity.
+  - destruct raised; reflexivity.
+  - destruct (transport s); reflexivity.
+  - destruct raised; reflexivity.
+  - destruct (transport s); [|reflexivity]. pose proof (pe_send cfg s (MCancel id)) as Hs.
+    destruct (send cfg s (MCancel id)) as [o ok]. simpl in *. apply pe_app; [assumption | destruct ok; reflexivity].
+  - destruct (transport s); [|reflexivity]. pose proof (pe_send cfg (set_invs s (remove1 rq (invs s))) (MYield rq)) as Hs.
+    destruct (send cfg (set_invs s (remove1 rq (invs s))) (MYield rq)) as [o ok]. simpl in *.
+    apply pe_app; [assumption | destruct ok; [|destruct fl]; reflexivity].
+Qed.
+
+Lemma pe_defer_leaf : forall fl cfg s l, pe_only (snd (defer_leaf fl cfg s l)).
+Proof. intros. destruct fl; simpl; [apply pe_run_leaf | reflexivity]. Qed.
+
+Lemma pe_do_onLeave : forall fl cfg s rs, pe_only (snd (fst (do_onLeave fl cfg s rs))).
+Proof.
+  intros. unfold do_onLeave. destruct (u_leave_super cfg); [|reflexivity].
+  pose proof (pe_errback_all fl s (ELeave rs)) as H1. destruct (errback_all fl s (ELeave rs)) as [s1 o1].
+  pose proof (pe_defer_leaf fl cfg s1 LLeaveDisconnect) as H2. destruct (defer_leaf fl cfg s1 LLeaveDisconnect) as [s2 o2].
+  simpl in *. apply (pe_app [Called (CbLeave rs (sid s))]); [reflexivity | now apply pe_app].
+Qed.
+
+Lemma pe_do_onDisconnect : forall fl cfg s, pe_only (snd (fst (do_onDisconnect fl cfg s))).
+Proof.
+  intros. unfold do_onDisconnect. destruct (u_disc_super cfg); [|reflexivity].
+  pose proof (pe_errback_all fl s ETransportLost) as H1. destruct (errback_all fl s ETransportLost) as [s1 o1].
+  simpl in *. apply (pe_app [Called CbDisconnect]); [reflexivity | assumption].
+Qed.
+
+Lemma pe_leave_then : forall fl cfg s rs,
+  pe_only (snd (let '(s2, o2, raised) := do_onLeave fl cfg s rs in
+                let '(s3, o3) := defer_leaf fl cfg s2 (LLeaveK raised) in (s3, o2 ++ o3))).
+Proof.
+  intros. pose proof (pe_do_onLeave fl cfg s rs) as H1. destruct (do_onLeave fl cfg s rs) as [[s2 o2] raised].
+  pose proof (pe_defer_leaf fl cfg s2 (LLeaveK raised)) as H2. destruct (defer_leaf fl cfg s2 (LLeaveK raised)) as [s3 o3].
+  simpl in *. now apply pe_app.
+Qed.
+
+Lemma pe_challenge_failed : forall fl cfg s, pe_only (snd (challenge_failed fl cfg s)).
+Proof.
+  intros. unfold challenge_failed. destruct (transport s); [|destruct fl; reflexivity].
+  pose proof (pe_send cfg s (MAbort RsCannotAuth)) as Hs. destruct (send cfg s (MAbort RsCannotAuth)) as [o1 ok]. simpl in Hs.
+  destruct ok.
+  - pose proof (pe_leave_then fl cfg s RsCannotAuth) as H1.
+    destruct (do_onLeave fl cfg s RsCannotAuth) as [[s2 o2] raised]. destruct (defer_leaf fl cfg s2 (LLeaveK raised)) as [s3 o3].
+    simpl in *. apply (pe_app [UserError]); [reflexivity | now apply pe_app].
+  - simpl. apply (pe_app [UserError]); [reflexivity | apply pe_app; [assumption | destruct fl; reflexivity]].
+Qed.
+
+Lemma pe_run_thunk : forall fl cfg s t, pe_only (snd (run_thunk fl cfg s t)).
+Proof.
+  intros fl cfg s t. destruct t as [l| |o sidv|o]; simpl.
+  - apply pe_run_leaf.
+  - destruct (u_connect cfg); [|reflexivity]. destruct (sid_truthy s); [reflexivity|].
+    destruct (negb (transport s)); [reflexivity|]. pose proof (pe_send cfg (set_goodbye s false) MHello) as Hs.
+    destruct (send cfg (set_goodbye s false) MHello) as [o ok]. simpl in *. apply (pe_app [Called CbConnect]); [reflexivity | assumption].
+  - destruct o.
+    + destruct (transport s); [apply pe_defer_leaf | destruct fl; reflexivity].
+    + destruct (transport s); [|destruct fl; reflexivity].
+      pose proof (pe_send cfg s (MAbort RsCannotAuth)) as Hs. destruct (send cfg s (MAbort RsCannotAuth)) as [o1 ok].
+      simpl in *. apply pe_app; [assumption | destruct ok; [|destruct fl]; reflexivity].
+    + destruct (transport s); [|destruct fl; reflexivity].
+      pose proof (pe_send cfg s (MAbort RsCannotAuth)) as Hs. destruct (send cfg s (MAbort RsCannotAuth)) as [o1 ok].
+      simpl in *. apply pe_app; [assumption | destruct ok; [|destruct fl]; reflexivity].
+  - destruct o.
+    + destruct (transport s).
+      * pose proof (pe_send cfg s MAuthenticate) as Hs. destruct (send cfg s MAuthenticate) as [o1 ok]. simpl in Hs.
+        destruct ok; [assumption|]. destruct fl; [assumption|].
+        pose proof (pe_challenge_failed Aio cfg s) as H1. destruct (challenge_failed Aio cfg s) as [s2 o2]. simpl in *.
+        now apply pe_app.
+      * destruct fl; [reflexivity | apply pe_challenge_failed].
+    + destruct fl; [reflexivity | apply pe_challenge_failed].
+    + apply pe_challenge_failed.
+Qed.
+
+Lemma pe_defer : forall fl cfg s t, pe_only (snd (defer fl cfg s t)).
+Proof. intros. destruct fl; simpl; [apply pe_run_thunk | reflexivity]. Qed.
+
+Lemma pe_run_queue : forall fl cfg q s, pe_only (snd (run_queue fl cfg s q)).
+Proof.
+  induction q as [|t r IH]; simpl; intro s; [reflexivity|].
+  pose proof (pe_run_thunk fl cfg s t) as H1. destruct (run_thunk fl cfg s t) as [s1 o1].
+  specialize (IH s1). destruct (run_queue fl cfg s1 r) as [s2 o2]. simpl in *. now apply pe_app.
+Qed.
+
+Lemma pe_pop_reply : forall s k rq found,
+  (forall r s1, pe_only (snd (found r s1))) -> pe_only (snd (pop_reply s k rq found)).
+Proof.
+  intros s k rq found H. unfold pop_reply. destruct (find_req k rq (pend s)); [|reflexivity].
+  destruct (is_done _ _); [reflexivity | apply H].
+Qed.
+
+Lemma pe_established : forall fl cfg s o, (forall r, o <> RGoodbye r) -> pe_only (snd (on_message_established fl cfg s o)).
+Proof.
+  intros fl cfg s o Hng. destruct o; simpl; try reflexivity.
+  - exfalso. eapply Hng. reflexivity.
+  - apply pe_pop_reply. intros. apply pe_complete.
+  - apply pe_pop_reply. intros. apply pe_complete.
+  - apply pe_pop_reply. intros. apply pe_complete.
+  - destruct (find_req KCall rq (pend s)) as [r|]; [|reflexivity]. destruct progress.
+    + destruct (r_opts r) as [c|]; [|reflexivity]. destruct (co_progress c); reflexivity.
+    + destruct (is_done _ _); [reflexivity | apply pe_complete].
+  - apply pe_pop_reply. intros r s1. destruct (assoc regid (regs s1)); [reflexivity | apply pe_complete].
+  - destruct (rq =? 0).
+    + destruct regid as [g|]; [destruct (assoc g (regs s))|]; reflexivity.
+    + apply pe_pop_reply. intros. apply pe_complete.
+  - destruct (kind_of_code rtype) as [k|]; [|reflexivity].
+    destruct (find_req k rq (pend s)); [apply pe_complete | reflexivity].
+  - destruct (assoc subid (subs s)); reflexivity.
+  - destruct (memN rq (invs s)); [reflexivity|]. destruct (assoc regid (regs s)); [apply pe_defer_leaf | reflexivity].
+Qed.
+
+Lemma pe_unjoined : forall fl cfg s o, pe_only (snd (on_message_unjoined fl cfg s o)).
+Proof.
+  intros fl cfg s o. destruct o; simpl; try reflexivity.
+  - pose proof (pe_defer fl cfg s (TWelcomeK (u_welcome cfg) sidv)) as H1.
+    destruct (defer fl cfg s (TWelcomeK (u_welcome cfg) sidv)) as [s1 o1]. simpl in *.
+    apply (pe_app [Called CbWelcome]); [reflexivity | assumption].
+  - apply pe_leave_then.
+  - pose proof (pe_defer fl cfg s (TChallengeK (u_challenge cfg))) as H1.
+    destruct (defer fl cfg s (TChallengeK (u_challenge cfg))) as [s1 o1]. simpl in *.
+    apply (pe_app [Called CbChallenge]); [reflexivity | assumption].
+Qed.
+
+(* the one other exception an entry point can let through: the GOODBYE reply on a transport that refuses sends *)
+Definition goodbye_reply_refused (cfg : ucfg) (s : sess) (o : op) : Prop :=
+  exists r, o = RGoodbye r /\ transport s = true /\ sid s <> None /\ goodbye_sent s = false /\ send_ok cfg s = false.
+
+Theorem step_raises : forall fl cfg s o,
+  pe_only (snd (step fl cfg s o)) \/
+  (goodbye_reply_refused cfg s o /\ snd (step fl cfg s o) = [SendFailed (MGoodbye RsNormal); Raised XTransportLost]).
+Proof.
+  intros fl cfg s o.
+  assert (Hrouter : forall o', (forall r, o' <> RGoodbye r) ->
+            pe_only (snd (if negb (transport s) then (s, [])
+                          else match sid s with None => on_message_unjoined fl cfg s o' | Some _ => on_message_established fl cfg s o' end))).
+  { intros o' Hng. destruct (negb (transport s)); [reflexivity|]. destruct (sid s); [now apply pe_established | apply pe_unjoined]. }
+  destruct o; try (left; apply Hrouter; intros r0 E; discriminate); unfold step; cbv beta iota.
+  - left. destruct (opened s); [reflexivity | apply pe_defer].
+  - left. destruct (negb (transport s)); [reflexivity|].
+    set (s0 := set_conn s (opened s) false false).
+    assert (H3 : pe_only (snd (if sid_truthy s0
+                           then let '(s1, o1, raised) := do_onLeave fl cfg s0 RsTransportLost in
+                                let '(s2, o2) := defer_leaf fl cfg s1 (LLeaveK raised) in (set_sid s2 None, o1 ++ o2)
+                           else (s0, [])))).
+    { destruct (sid_truthy s0); [|reflexivity]. pose proof (pe_leave_then fl cfg s0 RsTransportLost) as H1.
+      destruct (do_onLeave fl cfg s0 RsTransportLost) as [[s1 o1] raised].
+      destruct (defer_leaf fl cfg s1 (LLeaveK raised)) as [s2 o2]. exact H1. }
+    destruct (if sid_truthy s0
+              then let '(s1, o1, raised) := do_onLeave fl cfg s0 RsTransportLost in
+                   let '(s2, o2) := defer_leaf fl cfg s1 (LLeaveK raised) in (set_sid s2 None, o1 ++ o2)
+              else (s0, [])) as [s3 o3]. simpl in H3.
+    pose proof (pe_do_onDisconnect fl cfg s3) as H4. destruct (do_onDisconnect fl cfg s3) as [[s4 o4] raised]. simpl in H4.
+    pose proof (pe_defer_leaf fl cfg s4 (LDiscK raised)) as H5. destruct (defer_leaf fl cfg s4 (LDiscK raised)) as [s5 o5].
+    simpl in *. apply pe_app; [assumption | now apply pe_app].
+  - left. destruct fl; [reflexivity | apply pe_run_queue].
+  - left. destruct (negb (transport s)); [reflexivity|]. unfold new_request. cbv zeta beta iota.
+    match goal with |- context [send cfg ?S ?M] => pose proof (pe_send cfg S M) as Hs; destruct (send cfg S M) as [o1 ok] end.
+    simpl in Hs. destruct ok; simpl; (apply pe_app; [assumption | reflexivity]).
+  - left. destruct (negb (transport s)); [reflexivity|]. destruct (po_wants_ack o); unfold new_request, new_id_only; cbv zeta beta iota;
+    match goal with |- context [send cfg ?S ?M] => pose proof (pe_send cfg S M) as Hs; destruct (send cfg S M) as [o1 ok] end;
+    simpl in Hs; destruct ok; simpl; (apply pe_app; [assumption | reflexivity]).
+  - left. destruct (negb (transport s)); [reflexivity|]. unfold new_request. cbv zeta beta iota.
+    match goal with |- context [send cfg ?S ?M] => pose proof (pe_send cfg S M) as Hs; destruct (send cfg S M) as [o1 ok] end.
+    simpl in Hs. destruct ok; simpl; (apply pe_app; [assumption | reflexivity]).
+  - left. destruct (negb (transport s)); [reflexivity|]. unfold new_request. cbv zeta beta iota.
+    match goal with |- context [send cfg ?S ?M] => pose proof (pe_send cfg S M) as Hs; destruct (send cfg S M) as [o1 ok] end.
+    simpl in Hs. destruct ok; simpl; (apply pe_app; [assumption | reflexivity]).
+  - left. destruct (sub_id_of s h) as [subid|]; [|reflexivity]. destruct (negb (memN h _)); [reflexivity|].
+    destruct (negb (transport s)); [reflexivity|].
+    destruct (remove1 h match assoc subid (subs s) with Some l => l | None => [] end) as [|x rest'].
+    + unfold new_request. cbv zeta beta iota.
+      match goal with |- context [send cfg ?S ?M] => pose proof (pe_send cfg S M) as Hs; destruct (send cfg S M) as [o1 ok] end.
+      simpl in Hs. destruct ok; simpl; (apply pe_app; [assumption | reflexivity]).
+    + match goal with |- context [complete fl ?S ?F ?R] => pose proof (pe_complete fl S F R) as Hc; destruct (complete fl S F R) as [s2 o2] end.
+      simpl in *. exact Hc.
+  - left. destruct (reg_id_of s h) as [regid|]; [|reflexivity]. destruct (assoc regid (regs s)) as [h'|]; [|reflexivity].
+    destruct (negb (h' =? h)); [reflexivity|]. destruct (negb (transport s)); [reflexivity|]. unfold new_request. cbv zeta beta iota.
+    match goal with |- context [send cfg ?S ?M] => pose proof (pe_send cfg S M) as Hs; destruct (send cfg S M) as [o1 ok] end.
+    simpl in Hs. destruct ok; simpl; (apply pe_app; [assumption | reflexivity]).
+  - left. destruct (is_done s f); [reflexivity|]. destruct (assoc f (issued s)) as [[k id]|]; [|reflexivity].
+    destruct fl; [|destruct k; reflexivity].
+    assert (Hc : pe_only (snd (let '(s1, o2) := complete Tx s f (RErr ECancelled) in (s1, o2 ++ [ApiReturned None])))).
+    { pose proof (pe_complete Tx s f (RErr ECancelled)) as Hc. destruct (complete Tx s f (RErr ECancelled)). simpl in *.
+      apply pe_app; [assumption | reflexivity]. }
+    destruct k; try exact Hc. destruct (transport s); [|reflexivity].
+    pose proof (pe_send cfg s (MCancel id)) as Hs. destruct (send cfg s (MCancel id)) as [o1 ok]. simpl in Hs.
+    destruct ok; [|simpl; apply pe_app; [assumption | reflexivity]].
+    pose proof (pe_complete Tx s f (RErr ECancelled)) as Hc2. destruct (complete Tx s f (RErr ECancelled)). simpl in *.
+    apply pe_app; [assumption | apply pe_app; [assumption | reflexivity]].
+  - left. destruct (negb (sid_truthy s)); [reflexivity|]. destruct (goodbye_sent s); [reflexivity|].
+    destruct (negb (transport s)); [reflexivity|].
+    match goal with |- context [send cfg s ?M] => pose proof (pe_send cfg s M) as Hs; destruct (send cfg s M) as [o1 ok] end.
+    simpl in Hs. destruct ok; simpl; (apply pe_app; [assumption | reflexivity]).
+  - left. destruct (transport s); reflexivity.
+  - (* RGoodbye *)
+    destruct (transport s) eqn:Et; [|left; reflexivity]. simpl negb. cbv iota.
+    destruct (sid s) as [v|] eqn:Es; [|left; reflexivity]. unfold on_message_established.
+    destruct (goodbye_sent s) eqn:Eg.
+    + left. pose proof (pe_leave_then fl cfg (set_sid s None) r) as H1.
+      destruct (do_onLeave fl cfg (set_sid s None) r) as [[s2 o2] raised].
+      destruct (defer_leaf fl cfg s2 (LLeaveK raised)) as [s3 o3]. exact H1.
+    + destruct (send_fst_snd cfg s (MGoodbye RsNormal)) as [Hok Hout]. pose proof (pe_send cfg s (MGoodbye RsNormal)) as Hs.
+      destruct (send cfg s (MGoodbye RsNormal)) as [o1 ok]. simpl in Hok, Hout, Hs. destruct ok.
+      * left. pose proof (pe_leave_then fl cfg (set_sid s None) r) as H1.
+        destruct (do_onLeave fl cfg (set_sid s None) r) as [[s2 o2] raised].
+        destruct (defer_leaf fl cfg s2 (LLeaveK raised)) as [s3 o3]. simpl in *. now apply pe_app.
+      * right. split.
+        -- exists r. repeat split; auto. rewrite Es. discriminate.
+        -- simpl. subst o1. unfold send_ok in Hok. destruct (topen s); [discriminate|]. simpl in Hok.
+           rewrite Et in *. destruct (t_lenient cfg); [discriminate | reflexivity].
+Qed.
+
+Theorem trace_raises : forall fl cfg ops e,
+  In (Raised e) (trace fl cfg ops) -> e = XProtocolError \/ e = XTransportLost.
+Proof.
+  intros fl cfg ops. unfold trace. generalize init. induction ops as [|o t IH]; simpl; intros s e Hin; [contradiction|].
+  pose proof (step_raises fl cfg s o) as Hst. destruct (step fl cfg s o) as [s1 o1]. simpl in Hst.
+  specialize (IH s1 e). destruct (run fl cfg s1 t) as [s2 tr]. simpl in *.
+  apply in_app_or in Hin. destruct Hin as [Hin|Hin]; [|now apply IH].
+  destruct Hst as [Hpe|[_ Heq]].
+  - left. unfold pe_only in Hpe. rewrite forallb_forall in Hpe. specialize (Hpe _ Hin). simpl in Hpe.
+    destruct e; try discriminate. reflexivity.
+  - subst o1. destruct Hin as [H|[H|[]]]; inversion H. now right.
 Qed.
